@@ -131,8 +131,11 @@ func run(c *lib.Ctx) {
 
 func policyLevel(c *lib.Ctx) {
 	maxN := c.Pick(7, 10)
-	keys := 64
 	for n := 1; n <= maxN; n++ {
+		keys := 64
+		if c.Quick() && n >= 4 {
+			keys = 32 // the race-detector build makes the big state spaces expensive
+		}
 		// assignments
 		var assigns [][]int
 		if n <= 5 {
